@@ -173,3 +173,25 @@ func Alias() {
 	verifrt.Assert(kept[0][0].n == 20 && kept[1][0].n == 21, "copied-rounds-stay-apart")
 	verifrt.Reach("end")
 }
+
+type binKind uint8
+
+type binRow struct {
+	A binKind
+	B binKind
+	N uint16
+}
+
+// BinStruct: encoding/binary.Read into a struct of fixed-size fields (named
+// scalar types included) fills the fields in declaration order.
+func BinStruct() {
+	raw := []byte{verifrt.U8("a"), verifrt.U8("b"), 0x34, 0x12}
+	var row binRow
+	err := binary.Read(bytes.NewReader(raw), binary.LittleEndian, &row)
+	verifrt.Assert(err == nil, "bin-struct-read")
+	verifrt.Assert(row.A == binKind(raw[0]) && row.B == binKind(raw[1]) && row.N == 0x1234, "bin-struct-fields-in-order")
+	var short binRow
+	err = binary.Read(bytes.NewReader(raw[:1]), binary.LittleEndian, &short)
+	verifrt.Assert(err != nil, "bin-struct-short-input")
+	verifrt.Reach("end")
+}
